@@ -17,6 +17,12 @@ CLAIMS["C16"] = {
     "design_ref": "DESIGN.md section 4, C16",
     "note": "Trusted: Lean kernel + standard axioms; torch thresholding/any/sum on the exercised shapes is tied only by the correspondence; float32 quotient exact only below 2^24 accumulated bits (outside the model).",
 }
+CLAIMS["C17"] = {
+    "technique": "Lean 4 theorems with the stage behaviour and the thread-pool completion permutation universally quantified (dict/gather/reorder mechanism modelled exactly) + correspondence that forces every feasible completion order on the real ParallelModel",
+    "text": "Unbounded theorems for every stage family f: the sequential loop runs the declared stages in order, each once, feeding each the previous output, after any add/remove history (rejecting out-of-range removals); for ParallelModel the results dict built in an arbitrary completion order perm (any permutation of the branch indices) and then re-ordered equals the declared-order list with each result under its own name (branch names distinct) - so the aggregator input is schedule-independent; BranchingModel runs exactly the first branch whose condition holds and evaluates no later condition, else default, else error; the feedback model runs the encoder exactly max_iterations times with the stated per-round order; the MAC model runs all encoders, one sum, one constraint, one channel use, then the decoders. K: the step lists of DeepJSCCModel and ChannelCodeModel extracted from constructed objects equal the documented orders. Tie: recording stages on the real classes; completion order forced with events to each of the n! permutations (n<=4 quick, 5 thorough; worker counts 1..n and default, restricted to the orders feasible with that many workers); exhaustive short add/remove histories; overlapping branch conditions; iterations 0..5; 1..4 users.",
+    "design_ref": "DESIGN.md section 4, C17",
+    "note": "Trusted: Lean kernel + standard axioms; ThreadPoolExecutor/as_completed yield each future exactly once (the model's perm is that order); duplicate branch names are outside the theorem's hypothesis (names Nodup).",
+}
 
 NOT_YET = {}
 
